@@ -2,13 +2,22 @@
 
 package main
 
-// "disp" cases: the requests go through the REAL dispatcher (pkg/gateway/proxy/dispatcher)
-// of a real ClusterInfo whose dispatch policy points at a token-bucket schema; an httptest
-// upstream counts what is forwarded.  Observed per request: reached the upstream?, HTTP status.
+// "disp" cases: the requests go through the REAL dispatcher (pkg/gateway/proxy/dispatcher) of a real
+// ClusterInfo whose dispatch policy points at the token-bucket schema "tb"; the cluster has sibling
+// schemas of both types and its whole spec is re-synced (ClusterInfo.Sync) in the middle of the run;
+// an httptest upstream counts what is forwarded.  The limiter is looked up per request by the
+// dispatcher itself (MatchAttributes -> GetFlowSchema -> GetOrDefault).
+// "ulim" cases: the same on the bare upstreamLimiter (pkg/flowcontrols): Sync(spec), and
+// GetOrDefault("tb").TryAcquire() per request.
+// Observed per op: reached the upstream / admitted?, HTTP status, and what the lookup of "tb" returns
+// afterwards (token-bucket limiter? qps / burst as printed by String()).
 
 import (
+	"context"
 	"net/http"
 	"net/http/httptest"
+	"regexp"
+	"strconv"
 	"sync/atomic"
 
 	metav1 "k8s.io/apimachinery/pkg/apis/meta/v1"
@@ -17,13 +26,89 @@ import (
 
 	proxyv1alpha1 "github.com/kubewharf/kubegateway/pkg/apis/proxy/v1alpha1"
 	"github.com/kubewharf/kubegateway/pkg/clusters"
+	"github.com/kubewharf/kubegateway/pkg/flowcontrols"
+	gwflow "github.com/kubewharf/kubegateway/pkg/flowcontrols/flowcontrol"
 	"github.com/kubewharf/kubegateway/pkg/gateway/endpoints/request"
 	"github.com/kubewharf/kubegateway/pkg/gateway/proxy/dispatcher"
 )
 
+type lookupObs struct {
+	Tb bool  `json:"tb"`
+	Q  int64 `json:"q"`
+	B  int64 `json:"b"`
+}
+
 type dispStep struct {
-	Reached bool `json:"reached"`
-	Status  int  `json:"status"`
+	Reached bool      `json:"reached"`
+	Status  int       `json:"status"`
+	Lk      lookupObs `json:"lk"`
+}
+
+var qbRe = regexp.MustCompile(`qps=(\d+),burst=(\d+)`)
+
+func observeLookup(fc gwflow.FlowControl) lookupObs {
+	o := lookupObs{}
+	if fc == nil || fc.Type() != proxyv1alpha1.TokenBucket {
+		return o
+	}
+	m := qbRe.FindStringSubmatch(fc.String())
+	if m == nil {
+		return o
+	}
+	o.Tb = true
+	o.Q, _ = strconv.ParseInt(m[1], 10, 64)
+	o.B, _ = strconv.ParseInt(m[2], 10, 64)
+	return o
+}
+
+func fcSpec(schemas []c06Schema) proxyv1alpha1.FlowControl {
+	out := proxyv1alpha1.FlowControl{}
+	for _, sc := range schemas {
+		s := proxyv1alpha1.FlowControlSchema{Name: sc.Name}
+		switch sc.Typ {
+		case "tb":
+			s.TokenBucket = &proxyv1alpha1.TokenBucketFlowControlSchema{QPS: sc.Q, Burst: sc.B}
+		case "mi":
+			s.MaxRequestsInflight = &proxyv1alpha1.MaxRequestsInflightFlowControlSchema{Max: sc.Max}
+		case "ex":
+			s.Exempt = &proxyv1alpha1.ExemptFlowControlSchema{}
+		default:
+			panic("unknown schema type " + sc.Typ)
+		}
+		out.Schemas = append(out.Schemas, s)
+	}
+	return out
+}
+
+func runUlim(c c06Case) interface{} {
+	virtualClock(true)
+	defer virtualClock(false)
+	ctx, cancel := context.WithCancel(context.Background())
+	defer cancel()
+	lim := flowcontrols.NewUpstreamLimiter(ctx, "c06.example.com", "", nil)
+	lim.Sync(fcSpec(c.Spec))
+	steps := make([]dispStep, 0, len(c.Ops))
+	for _, op := range c.Ops {
+		st := dispStep{}
+		switch op.Op {
+		case "try":
+			atomic.StoreInt64(&vnow, op.T)
+			fc := gwflow.Pin(lim.GetOrDefault("tb")) // what the dispatcher does per request
+			if fc.TryAcquire() {
+				st.Reached, st.Status = true, 200
+				fc.Release()
+			} else {
+				st.Status = 429
+			}
+		case "sync":
+			lim.Sync(fcSpec(op.Spec))
+		default:
+			panic("unknown op " + op.Op)
+		}
+		st.Lk = observeLookup(lim.GetOrDefault("tb"))
+		steps = append(steps, st)
+	}
+	return map[string]interface{}{"steps": steps}
 }
 
 func runDisp(c c06Case) interface{} {
@@ -38,21 +123,23 @@ func runDisp(c c06Case) interface{} {
 	}))
 	defer up.Close()
 	const host = "c06.example.com"
-	cl := &proxyv1alpha1.UpstreamCluster{
-		ObjectMeta: metav1.ObjectMeta{Name: host},
-		Spec: proxyv1alpha1.UpstreamClusterSpec{
-			Servers:     []proxyv1alpha1.UpstreamClusterServer{{Endpoint: up.URL}},
-			FlowControl: proxyv1alpha1.FlowControl{Schemas: []proxyv1alpha1.FlowControlSchema{tbSchema(c.Q, c.B)}},
-			DispatchPolicies: []proxyv1alpha1.DispatchPolicy{{
-				Strategy:              proxyv1alpha1.RoundRobin,
-				FlowControlSchemaName: "tb",
-				Rules: []proxyv1alpha1.DispatchPolicyRule{{
-					Verbs: []string{"*"}, APIGroups: []string{"*"}, Resources: []string{"*"},
+	mkCluster := func(schemas []c06Schema) *proxyv1alpha1.UpstreamCluster {
+		return &proxyv1alpha1.UpstreamCluster{
+			ObjectMeta: metav1.ObjectMeta{Name: host},
+			Spec: proxyv1alpha1.UpstreamClusterSpec{
+				Servers:     []proxyv1alpha1.UpstreamClusterServer{{Endpoint: up.URL}},
+				FlowControl: fcSpec(schemas),
+				DispatchPolicies: []proxyv1alpha1.DispatchPolicy{{
+					Strategy:              proxyv1alpha1.RoundRobin,
+					FlowControlSchemaName: "tb",
+					Rules: []proxyv1alpha1.DispatchPolicyRule{{
+						Verbs: []string{"*"}, APIGroups: []string{"*"}, Resources: []string{"*"},
+					}},
 				}},
-			}},
-		},
+			},
+		}
 	}
-	info, err := clusters.CreateClusterInfo(cl, nil, "", nil)
+	info, err := clusters.CreateClusterInfo(mkCluster(c.Spec), nil, "", nil)
 	must(err)
 	defer info.Stop()
 	ep, ok := info.Endpoints.Load(up.URL)
@@ -66,22 +153,35 @@ func runDisp(c c06Case) interface{} {
 
 	steps := make([]dispStep, 0, len(c.Ops))
 	for _, op := range c.Ops {
-		atomic.StoreInt64(&vnow, op.T)
-		req := httptest.NewRequest("GET", "http://"+host+"/api/v1/namespaces/default/pods", nil)
-		ctx := genericapirequest.WithUser(req.Context(), &user.DefaultInfo{Name: "u", Groups: []string{"system:authenticated"}})
-		ctx = genericapirequest.WithRequestInfo(ctx, &genericapirequest.RequestInfo{
-			IsResourceRequest: true, Path: "/api/v1/namespaces/default/pods", Verb: "list",
-			APIPrefix: "api", APIVersion: "v1", Namespace: "default", Resource: "pods",
-			Parts: []string{"pods"},
-		})
-		ctx = request.WithExtraRequestInfo(ctx, &request.ExtraRequestInfo{
-			Scheme: "http", Hostname: host, UpstreamCluster: info, IsProxyRequest: true,
-		})
-		ctx = request.WithProxyInfo(ctx, request.NewProxyInfo())
-		rec := httptest.NewRecorder()
-		before := atomic.LoadInt64(&hits)
-		h.ServeHTTP(rec, req.WithContext(ctx))
-		steps = append(steps, dispStep{Reached: atomic.LoadInt64(&hits) > before, Status: rec.Code})
+		st := dispStep{}
+		switch op.Op {
+		case "try":
+			atomic.StoreInt64(&vnow, op.T)
+			req := httptest.NewRequest("GET", "http://"+host+"/api/v1/namespaces/default/pods", nil)
+			ctx := genericapirequest.WithUser(req.Context(), &user.DefaultInfo{Name: "u", Groups: []string{"system:authenticated"}})
+			ctx = genericapirequest.WithRequestInfo(ctx, &genericapirequest.RequestInfo{
+				IsResourceRequest: true, Path: "/api/v1/namespaces/default/pods", Verb: "list",
+				APIPrefix: "api", APIVersion: "v1", Namespace: "default", Resource: "pods",
+				Parts: []string{"pods"},
+			})
+			ctx = request.WithExtraRequestInfo(ctx, &request.ExtraRequestInfo{
+				Scheme: "http", Hostname: host, UpstreamCluster: info, IsProxyRequest: true,
+			})
+			ctx = request.WithProxyInfo(ctx, request.NewProxyInfo())
+			rec := httptest.NewRecorder()
+			before := atomic.LoadInt64(&hits)
+			h.ServeHTTP(rec, req.WithContext(ctx))
+			st.Reached, st.Status = atomic.LoadInt64(&hits) > before, rec.Code
+		case "sync":
+			must(info.Sync(mkCluster(op.Spec)))
+			if e, ok := info.Endpoints.Load(up.URL); ok {
+				e.UpdateStatus(true, "", "")
+			}
+		default:
+			panic("unknown op " + op.Op)
+		}
+		st.Lk = observeLookup(info.GetFlowSchema("tb"))
+		steps = append(steps, st)
 	}
 	return map[string]interface{}{"steps": steps}
 }
